@@ -117,7 +117,7 @@ def main():
             sh(["git", "-C", "/repo", "checkout", "--", "."])
             shutil.rmtree(os.path.join(VERIF, "replays", prop), ignore_errors=True)
         print("%-36s %s %-28s %s" % rows[-1], flush=True)
-    json.dump(rows, open(os.path.join(VERIF, "tools", "mutants_last.json"), "w"), indent=1)
+    json.dump(rows, open(os.path.join(VERIF, "tools", "mutants_last.json" if want else "mutants_all.json"), "w"), indent=1)
     return 0 if missed == 0 else 1
 
 
